@@ -8,6 +8,7 @@
 // =============================================================================================
 pub enum Engine { MySql, Postgres, Sqlite }
 
+#[verifier::opaque]
 pub open spec fn prec_bin(e: Engine, op: BinOper) -> Option<int> {
     match e {
         // ... * / % (12) > + - (11) > << >> (10) > & (9) > | (8) > = <=> >= > <= < <> != IS LIKE REGEXP IN (7)
@@ -94,6 +95,7 @@ pub open spec fn s_is_comparison(o: Oper) -> bool {
     o matches Oper::BinOper(b) && (b == BinOper::SmallerThan || b == BinOper::SmallerThanOrEqual || b == BinOper::Equal
         || b == BinOper::GreaterThanOrEqual || b == BinOper::GreaterThan || b == BinOper::NotEqual)
 }
+#[verifier::opaque]
 pub open spec fn drop_common(more_parens: bool, inner: SimpleExpr, outer: Oper) -> bool {
     if atomic(inner) { true }
     else {
@@ -114,6 +116,7 @@ pub open spec fn s_is_pg_comparison(b: BinOper) -> bool {
     || b == BinOper::PgOperator(PgBinOper::WordSimilarity) || b == BinOper::PgOperator(PgBinOper::StrictWordSimilarity) || b == BinOper::PgOperator(PgBinOper::Matches)
 }
 pub open spec fn s_is_ilike(b: BinOper) -> bool { b == BinOper::PgOperator(PgBinOper::ILike) || b == BinOper::PgOperator(PgBinOper::NotILike) }
+#[verifier::opaque]
 pub open spec fn drop_pg(more_parens: bool, inner: SimpleExpr, outer: Oper) -> bool {
     drop_common(more_parens, inner, outer) || (match inner {
         SimpleExpr::Binary(_, iop, _) => {
@@ -136,17 +139,20 @@ pub proof fn lemma_drop_is_safe(e: Engine, mp: bool, inner: SimpleExpr, outer: O
     requires drop_of(e, mp, inner, outer)
     ensures safe_bare(e, inner, outer)
 {
+    reveal(prec_bin); reveal(drop_common); reveal(drop_pg);
 }
 pub proof fn lemma_lassoc_is_safe(e: Engine, op: BinOper)
     requires lassoc_of(e, op)
     ensures left_assoc(e, op)
 {
+    reveal(prec_bin);
 }
 // the common decider is used by all three engines (Postgres ORs its own answer to it)
 pub proof fn lemma_common_safe_everywhere(mp: bool, inner: SimpleExpr, outer: Oper)
     requires drop_common(mp, inner, outer)
     ensures safe_bare(Engine::MySql, inner, outer), safe_bare(Engine::Postgres, inner, outer), safe_bare(Engine::Sqlite, inner, outer)
 {
+    reveal(prec_bin); reveal(drop_common);
 }
 
 // how binary_expr(l, op, r) writes its two operands (decision only)
@@ -154,10 +160,10 @@ pub open spec fn left_bare(e: Engine, mp: bool, l: SimpleExpr, op: BinOper) -> b
     drop_of(e, mp, l, Oper::BinOper(op)) || (l matches SimpleExpr::Binary(_, lop, _) && lop == op && lassoc_of(e, op))
 }
 // ternary encodings: x BETWEEN lo AND hi is Binary(x, Between, Binary(lo, And, hi)).  The pair around `lo AND hi` is
-// supplied by the grammar, but lo and hi were parenthesised by the rules for AND: they must also be safe under BETWEEN.
+// supplied by the grammar; lo and hi are operands of BETWEEN and must be safe under BETWEEN (not merely under AND).
 pub open spec fn between_bounds_ok(e: Engine, mp: bool, op: BinOper, lo: SimpleExpr, hi: SimpleExpr) -> bool {
-    (left_bare(e, mp, lo, BinOper::And) ==> safe_bare(e, lo, Oper::BinOper(op)))
-    && (drop_of(e, mp, hi, Oper::BinOper(BinOper::And)) ==> safe_bare(e, hi, Oper::BinOper(op)))
+    (drop_of(e, mp, lo, Oper::BinOper(op)) ==> safe_bare(e, lo, Oper::BinOper(op)))
+    && (drop_of(e, mp, hi, Oper::BinOper(op)) ==> safe_bare(e, hi, Oper::BinOper(op)))
 }
 // x LIKE p ESCAPE c is Binary(x, Like, Binary(p, Escape, c)): p and c must be bare only when atomic
 pub open spec fn escape_operands_ok(e: Engine, mp: bool, p: SimpleExpr, c: SimpleExpr) -> bool {
@@ -178,13 +184,53 @@ pub open spec fn right_bare(e: Engine, mp: bool, op: BinOper, r: SimpleExpr) -> 
     drop_of(e, mp, r, Oper::BinOper(op)) || between_hack(op, r) || escape_hack(op, r) || as_hack(op, r)
 }
 
+pub proof fn lemma_left_safe(e: Engine, mp: bool, l: SimpleExpr, op: BinOper)
+    requires left_bare(e, mp, l, op)
+    ensures safe_bare_left(e, l, op)
+{
+    if drop_of(e, mp, l, Oper::BinOper(op)) { lemma_drop_is_safe(e, mp, l, Oper::BinOper(op)); } else { lemma_lassoc_is_safe(e, op); }
+}
+pub proof fn lemma_between_ok(e: Engine, mp: bool, op: BinOper, lo: SimpleExpr, hi: SimpleExpr)
+    ensures between_bounds_ok(e, mp, op, lo, hi)
+{
+    if drop_of(e, mp, lo, Oper::BinOper(op)) { lemma_drop_is_safe(e, mp, lo, Oper::BinOper(op)); }
+    if drop_of(e, mp, hi, Oper::BinOper(op)) { lemma_drop_is_safe(e, mp, hi, Oper::BinOper(op)); }
+}
+pub proof fn lemma_escape_ok(e: Engine, mp: bool, p: SimpleExpr, c: SimpleExpr)
+    ensures escape_operands_ok(e, mp, p, c)
+{
+    reveal(drop_common); reveal(drop_pg);
+}
+
 // ---- text of a rendered binary / unary expression ------------------------------------------------------------------------------
 pub uninterp spec fn expr_text(e: Engine, x: SimpleExpr) -> Seq<char>;
 pub uninterp spec fn bin_oper_text(e: Engine, op: BinOper) -> Seq<char>;
 pub uninterp spec fn un_oper_text(e: Engine, op: UnOper) -> Seq<char>;
+#[verifier::opaque]
 pub open spec fn paren(p: bool, s: Seq<char>) -> Seq<char> { if p { seq!['('] + s + seq![')'] } else { s } }
-pub open spec fn binary_text(e: Engine, lp: bool, l: SimpleExpr, op: BinOper, rp: bool, r: SimpleExpr) -> Seq<char> {
-    paren(lp, expr_text(e, l)) + seq![' '] + bin_oper_text(e, op) + seq![' '] + paren(rp, expr_text(e, r))
+pub proof fn lemma_paren(p: bool, s: Seq<char>)
+    ensures p ==> paren(p, s) == seq!['('] + s + seq![')'], !p ==> paren(p, s) == s
+{ reveal(paren); }
+pub proof fn lemma_concat3(t0: Seq<char>, a: Seq<char>, b: Seq<char>, c: Seq<char>, tf: Seq<char>)
+    requires tf == t0 + a + b + c
+    ensures tf.subrange(0, t0.len() as int) == t0, tf.subrange(t0.len() as int, tf.len() as int) == a + b + c
+{
+    assert(tf.subrange(0, t0.len() as int) =~= t0);
+    assert(tf.subrange(t0.len() as int, tf.len() as int) =~= a + b + c);
+}
+#[verifier::opaque]
+pub open spec fn bound_text(e: Engine, mp: bool, op: BinOper, b: SimpleExpr) -> Seq<char> { paren(!drop_of(e, mp, b, Oper::BinOper(op)), expr_text(e, b)) }
+// the right operand: for BETWEEN the two bounds are written relative to BETWEEN, joined by the inner operator (AND)
+pub open spec fn right_text(e: Engine, mp: bool, op: BinOper, r: SimpleExpr) -> Seq<char> {
+    if between_hack(op, r) {
+        match r {
+            SimpleExpr::Binary(lo, a, hi) => bound_text(e, mp, op, *lo) + seq![' '] + bin_oper_text(e, a) + seq![' '] + bound_text(e, mp, op, *hi),
+            _ => expr_text(e, r),
+        }
+    } else { expr_text(e, r) }
+}
+pub open spec fn binary_text(e: Engine, mp: bool, lp: bool, l: SimpleExpr, op: BinOper, rp: bool, r: SimpleExpr) -> Seq<char> {
+    paren(lp, expr_text(e, l)) + (seq![' '] + bin_oper_text(e, op) + seq![' ']) + paren(rp, right_text(e, mp, op, r))
 }
 
 // R-attr (trusted): #[derive(PartialEq)] on BinOper is structural equality
